@@ -232,6 +232,9 @@ def _run_one(args):
       p = subprocess.run([sys.executable, '-m', 'vp.worker', tin, tout], capture_output=True, text=True, timeout=timeout,
                          env=dict(os.environ))
     except subprocess.TimeoutExpired:
+      if isinstance(task, dict) and task.get('stretch'):
+        return {'errors': [], 'configs': 0, 'results': [dict(name=f'stretch task {task!r}', status='unknown', kind='stretch', queries=0,
+                                                             note=f'stopped after {timeout}s: undecided, excluded from the claim')]}
       return {'errors': [f'{task!r}: task exceeded {timeout}s and was stopped (undecided)'], 'results': [], 'configs': 0}
     try:
       with open(tout) as f:
